@@ -126,6 +126,13 @@ def csv_case(draw):
             'preexisting': draw(st.booleans())}
 
 
+@st.composite
+def csv_big_case(draw):
+    """Row counts in the hundreds of thousands (the CLI default is 10^6): whatever way the file is written, every requested row is there."""
+    return {'num_features': draw(st.integers(31, 33)), 'rows': draw(st.one_of(st.integers(200_001, 420_000), st.sampled_from([250_001, 333_334, 399_999]))),
+            'np_seed': draw(st.integers(0, 2**32 - 1)), 'name': 'big_out', 'preexisting': False}
+
+
 # ---- helpers -------------------------------------------------------------------------------------
 
 def materialize_structure(case):
@@ -324,8 +331,14 @@ def oracle_csv(case, rec):
         path = os.path.join(tmp, case['name'], 'data.csv')
         if not os.path.isfile(path):
             raise Violation(f'{case["name"]}/data.csv was not written')
-        with open(path, newline='') as fh:
-            table = list(csv.reader(fh))
+        if rows > 50000:
+            import pandas as pd
+            frame = pd.read_csv(path, dtype=str, keep_default_na=False, na_filter=False, header=None)
+            table = frame.values.tolist()
+            rec.cls('rows>=200000')
+        else:
+            with open(path, newline='') as fh:
+                table = list(csv.reader(fh))
     finally:
         os.chdir(cwd)
         shutil.rmtree(tmp, ignore_errors=True)
@@ -345,7 +358,7 @@ def oracle_csv(case, rec):
 
 
 ORACLES = {'C19/domain': oracle_domain, 'C19/shape': oracle_domain, 'C19/ensure-rep': oracle_ensure_rep,
-           'C19/replay': oracle_replay, 'C19/naive': oracle_naive, 'C19/csv': oracle_csv}
+           'C19/replay': oracle_replay, 'C19/naive': oracle_naive, 'C19/csv': oracle_csv, 'C19/csv-big': oracle_csv}
 
 
 def run(ctx):
@@ -359,6 +372,7 @@ def run(ctx):
         Clause('C19/replay', replay_case, oracle_replay, quick=1200, thorough=144000, quick_shards=3),
         Clause('C19/naive', naive_case, oracle_naive, quick=400, thorough=72000, quick_shards=2),
         Clause('C19/csv', csv_case, oracle_csv, quick=160, thorough=28800, quick_shards=2),
+        Clause('C19/csv-big', csv_big_case, oracle_csv, quick=2, thorough=32, quick_shards=2, thorough_shards=16),
     ]
     drive(ctx, clauses)
     c = ctx.stats.classes
